@@ -7,6 +7,9 @@ use futures::stream::StreamExt as _;
 use log::{debug, info, warn};
 use std::error::Error;
 use std::net::SocketAddr;
+#[cfg(hotstuff_verif)]
+use crate::simnet::{TcpListener, TcpStream};
+#[cfg(not(hotstuff_verif))]
 use tokio::net::{TcpListener, TcpStream};
 use tokio_util::codec::{Framed, LengthDelimitedCodec};
 
